@@ -199,6 +199,43 @@ func (m *Machine) Do(s *Step) (fail bool, ret []Text, errc string) {
 		default:
 			panic("unknown list op " + s.N)
 		}
+	case "setsp":
+		var arg *url.SearchParams
+		switch s.N {
+		case "fresh0":
+			arg = &url.SearchParams{}
+		case "fresh":
+			arg = &url.SearchParams{}
+			arg.Append(a, b)
+		case "copy":
+			arg = m.sp(s.Hb).Clone()
+			arg.Append(a, b)
+		case "live":
+			arg = m.sp(s.Hb)
+		default:
+			panic("unknown setsp argument " + s.N)
+		}
+		m.U[s.H].SetSearchParams(arg)
+	case "spdet":
+		c := m.sp(s.H).Clone()
+		switch s.N {
+		case "append":
+			c.Append(a, b)
+		case "delete":
+			c.Delete(a)
+		case "set":
+			c.Set(a, b)
+		case "sort":
+			c.Sort()
+		case "sortabs":
+			c.SortAbsolute()
+		default:
+			panic("unknown list op " + s.N)
+		}
+		ret = []Text{}
+		for _, p := range c.VerifParams() {
+			ret = append(ret, proj.FromGo(p[0]), proj.FromGo(p[1]))
+		}
 	case "read":
 		sp := m.sp(s.H)
 		switch s.N {
